@@ -190,6 +190,7 @@ func RunOne(w *World, tape *sim.Tape, focus string, tier string, trace bool) (re
 		if w.Timed {
 			cfg.StallPer1k = []int{0, 0, 0, 15, 80}[tape.Choose(5, "stall-rate")]
 			cfg.LatePer1k = []int{0, 0, 0, 250}[tape.Choose(4, "late-rate")]
+			cfg.AsyncTimerChan = tape.Choose(3, "timerchan") == 2
 		}
 		r.Cfg = cfg
 		res.Strategy = cfg.Strategy
